@@ -64,7 +64,12 @@ class Loop:
         self._rec[phi.res] = (init, step)
         return init, step
 
-    def choice_via(self, via):
+    def via_edge(self, src, dst):
+        """like via(), for iterations that take the CFG edge src -> dst"""
+        pc2 = PolyCtx(self.pc.P, self.fn, self.pc.C, choice=self.choice_via(dst, before=src))
+        return Loop(pc2, self.header, self.body)
+
+    def choice_via(self, via, before=None):
         """merge phis inside the loop resolved for iterations that pass block `via`: {phi: operand}; a phi keeps its name
         when values from several predecessors reachable from `via` differ"""
         R, st = {via}, [via]
@@ -73,8 +78,9 @@ class Loop:
             for y in x.succs:
                 if y in self.body and y is not self.header and y not in R:
                     R.add(y); st.append(y)
-        # blocks from which `via` is reachable inside the iteration
-        B, st = {via}, [via]
+        # blocks from which `via` is reachable inside the iteration (with `before`: the edge before -> via is taken)
+        start = before if before is not None else via
+        B, st = {start}, [start]
         while st:
             x = st.pop()
             if x is self.header:
@@ -90,7 +96,10 @@ class Loop:
                 if phi.op != 'phi':
                     break
                 # the edge pred -> b lies on an iteration through `via` iff pred comes after via, or via comes after b
-                vals = {v for v, lab in phi.incoming if self.fn.blocks[lab] in R or b in B}
+                if before is not None and b is via:
+                    vals = {v for v, lab in phi.incoming if self.fn.blocks[lab] is before}
+                else:
+                    vals = {v for v, lab in phi.incoming if (self.fn.blocks[lab] in R and not (before is not None and self.fn.blocks[lab] is via and False)) or b in B}
                 if len(vals) == 1:
                     ch[phi.res] = next(iter(vals))
         return ch
